@@ -20,6 +20,10 @@ def run(prop, tier, tree, record):
         return code
     if prop == "C19":
         return run_c19(tier, tree, record)
+    if prop == "C20":
+        return run_c20(tier, tree, record)
+    if prop in ("C14", "C15", "C16"):
+        return run_gen(prop, tier, tree, record)
     if prop in PROOF_PROPS:
         code, ev = driver.check_property(prop, tier=tier, tree=tree, record=record, level="proof",
                                          design_ref=PROOF_PROPS[prop])
@@ -62,4 +66,184 @@ def run_c19(tier, tree, record):
                                           "the equal-layout independence lemma is discharged; the any-layout lemma is "
                                           "refuted (known finding, witness replayed natively on every run).")
         driver.write_evidence("C19", ev)
+    return code
+
+
+def run_c20(tier, tree, record):
+    """unbounded: score bound = sum of sensitive values + sum of discovery values - hops (sum-loop invariants);
+    bounded exhaustive: the hop function against its documented quantity W and against the Steiner bound"""
+    import json, os
+    from checks import c20_hops
+    code, ev = driver.check_property("C20", tier=tier, tree=tree, record=record, level="other", design_ref="5/C20")
+    r = c20_hops.run(tree, tier)
+    known = driver.load_known("C20")
+    rdir = os.path.join(driver.VERIF, "replays")
+    os.makedirs(rdir, exist_ok=True)
+    for i, v in enumerate(r["viol_i"][:5]):
+        path = os.path.join(rdir, f"C20-hops-{i + 1}.json")
+        v = dict(v, harness="hops", property="C20", obligation="get_minimal_hops_to_goal:post:C20.hops-is-documented-quantity")
+        j = driver.run_replay(v, tree, path)
+        print(f"VIOLATION property=C20 replay={path}" + ("" if j.get("reproduced") else " no-failing-input-found"))
+        print("  failed obligation: nasim.envs.utils.get_minimal_hops_to_goal:post:C20.hops-is-documented-quantity (bounded)")
+        code = 1
+    if r["viol_ii_known"]:
+        kf = driver.match_known(known, "get_minimal_hops_to_goal:post:C20.hops-at-most-steiner")
+        hops, st = c20_hops.witness(tree)
+        if kf is not None and hops > st:
+            print(f"KNOWN-FINDING: property=C20 {kf['what']}")
+        elif kf is None:
+            path = os.path.join(rdir, "C20-steiner-1.json")
+            json.dump(dict(r["viol_ii_known"][0], harness="none", property="C20",
+                           obligation="get_minimal_hops_to_goal:post:C20.hops-at-most-steiner"), open(path, "w"), indent=1)
+            print(f"VIOLATION property=C20 replay={path}")
+            code = 1
+    if ev is not None:
+        ev["coverage"].update({
+            "evaluations": r["evaluations"], "distinct_nontrivial": r["distinct_nontrivial"], "exhaustive": True,
+            "rule": f"every symmetric self-connected 0/1 topology on 3..{r['nmax']} subnets x every non-empty set of <= 3 "
+                    "reachable sensitive subnets; non-trivial = more than one sensitive subnet or W != Steiner",
+            "bounded_hops": {"clause_i_failures": len(r["viol_i"]), "clause_ii_failures_known_class": len(r["viol_ii_known"]),
+                             "nmax": r["nmax"], "wall_s": round(r["wall"], 2)}})
+        ev["coverage"]["samples"] = (ev["coverage"].get("samples") or []) + r["samples"]
+        ev["coverage"]["explanation"] += (" C20: the score bound's arithmetic is proved (sum-loop invariants); the hop "
+            "function is checked by BOUNDED exhaustive enumeration with contracts as run-time monitors (not proved); "
+            "the whole-episode inequality is an optimisation over histories and is NOT decided (reduced on paper to "
+            "hops <= Steiner + C05).")
+        ev["violations"] = ev.get("violations", 0) + len(r["viol_i"])
+        driver.write_evidence("C20", ev)
+    return code
+
+
+def run_gen(prop, tier, tree, record):
+    """C14 / C15 / C16: contracts as run-time monitors on the real generator over a parameter grid x seeds
+    (bounded stand-in), plus - for C14 - the deductive determinism obligations of the dynamics contracts"""
+    import json, os, time
+    from checks import gen_monitor as gm
+    t0 = time.time()
+    code, ev = 0, None
+    if prop == "C14":
+        code, ev = driver.check_property("C14", tier=tier, tree=tree, record=record, level="other", design_ref="5/C14")
+    rdir = os.path.join(driver.VERIF, "replays")
+    os.makedirs(rdir, exist_ok=True)
+    res, ngrid, seeds = gm.run_grid(tree, tier)
+    prefix = {"C14": "C14.", "C15": "C15.", "C16": "C16."}[prop]
+    bad = [(r, v) for r in res for v in r["violations"] if v.startswith(prefix)]
+    known = driver.load_known(prop)
+    nviol = 0
+    seen = set()
+    for r, v in bad:
+        clause = v.split(":")[0]
+        if clause in seen:
+            continue
+        seen.add(clause)
+        nviol += 1
+        path = os.path.join(rdir, f"{prop}-gen-{nviol}.json")
+        rep = {"harness": "gen", "property": prop, "obligation": f"ScenarioGenerator.generate:post:{clause}",
+               "clause": v, "params": r["params"], "seed": r["seed"]}
+        j = driver.run_replay(rep, tree, path)
+        print(f"VIOLATION property={prop} replay={path}" + ("" if j.get("reproduced") else " no-failing-input-found"))
+        print(f"  failed obligation: nasim.scenarios.generator.ScenarioGenerator.generate:post:{v} (run-time contract)")
+        code = 1
+    extra = {}
+    if prop == "C14":
+        d, n = gm.run_shim(tree, tier)
+        extra["set_order_shim"] = {"cases": n, "differences": len(d)}
+        sys_path = tree
+        import sys as _s
+        if sys_path not in _s.path:
+            _s.path.insert(0, sys_path)
+        from nasim.scenarios.benchmark.generated import AVAIL_GEN_BENCHMARKS as B
+        cases = []
+        names = ["tiny-gen", "small-gen", "medium-gen", "pocp-2-gen"] if tier == "quick" else list(B)
+        for n_ in names:
+            p = {k: v for k, v in B[n_].items() if k not in ("name", "seed", "max_score")}
+            for s in ((0,) if tier == "quick" else (0, 1, 2)):
+                cases.append([p, s])
+        g = gm.grid(tier)
+        for p in g[::(9 if tier == "quick" else 3)]:
+            cases.append([p, 0])
+        hs = [0, 1, 2] if tier == "quick" else [0, 1, 2, 3, 4, 5]
+        hd, herr = gm.run_hashseeds(tree, cases, hs)
+        extra["hashseed_sweep"] = {"cases": len(cases), "hashseeds": hs, "differences": len(hd), "errors": herr}
+        k = 0
+        for x in (d[:2] + hd[:2]):
+            k += 1
+            case = x.get("case") or [x["params"], x["seed"]]
+            path = os.path.join(rdir, f"C14-hashseed-{k}.json")
+            rep = {"harness": "gen-hashseed", "property": "C14", "case": case, "hashseeds": [0, 1, 2, 3],
+                   "obligation": "ScenarioGenerator.generate:post:C14.same-seed-same-scenario-in-every-process"}
+            j = driver.run_replay(rep, tree, path)
+            print(f"VIOLATION property=C14 replay={path}" + ("" if j.get("reproduced") else " no-failing-input-found"))
+            print("  failed obligation: nasim.scenarios.generator.ScenarioGenerator.generate:post:"
+                  "C14.same-seed-same-scenario-in-every-process (run-time contract / order_determined(np.random.choice argument))")
+            code = 1
+        if herr:
+            print(f"CHECKER-FAILURE property=C14: hash-seed sub-process failed: {herr}")
+            code = code or 3
+    if prop == "C16":
+        # the nine shipped benchmark scenarios: solve with contracts' semantics on the real env, replay via step()
+        import glob
+        import sys as _s
+        if tree not in _s.path:
+            _s.path.insert(0, tree)
+        from nasim.scenarios import load_scenario
+        shipped = {}
+        for f in sorted(glob.glob(os.path.join(tree, "nasim", "scenarios", "benchmark", "*.yaml"))):
+            n = os.path.basename(f)[:-5]
+            try:
+                plan = gm.solve(load_scenario(f), tree)
+            except Exception as e:
+                plan = None
+                shipped[n] = f"error {type(e).__name__}: {e}"
+            if plan is None:
+                nviol += 1
+                path = os.path.join(rdir, f"C16-shipped-{n}.json")
+                json.dump({"harness": "none", "property": "C16", "obligation": f"shipped benchmark {n} is solvable",
+                           "verifier_output": shipped.get(n, "greedy closure with all stochastic actions succeeding never reaches the goal")},
+                          open(path, "w"), indent=1)
+                print(f"VIOLATION property=C16 replay={path} no-failing-input-found")
+                print(f"  failed obligation: shipped benchmark {n}: Solvable(scenario) (plan replayed through NASimEnv.step)")
+                code = 1
+            else:
+                shipped[n] = {"plan_len": len(plan), "replayed_terminated": True}
+        extra["shipped_benchmarks"] = shipped
+    if prop == "C15":
+        for f in known:
+            w = f.get("witness_name")
+            st = gm.run_witness(tree, w, 10 if tier == "quick" else 30)
+            extra.setdefault("known_witnesses", {})[w] = st
+            if st != "ok":
+                print(f"KNOWN-FINDING: property=C15 {f['what']}")
+    wall = time.time() - t0
+    nontriv = len({json.dumps(r["params"], sort_keys=True) for r in res})
+    cov = {"evaluations": len(res), "distinct_nontrivial": nontriv,
+           "rule": f"parameter grid of {ngrid} documented-valid parameter sets (minus the recorded known-finding classes) x "
+                   f"seeds {seeds}; every returned scenario is checked against the postcondition written from the property "
+                   "statement; distinct = distinct parameter sets",
+           "samples": [{"params": r["params"], "seed": r["seed"], "violations": r["violations"], "solvable": r["solvable"],
+                        "plan_len": r.get("plan_len")} for r in res[:3]],
+           "explanation": "BOUNDED stand-in: contracts evaluated as run-time monitors on the real ScenarioGenerator.generate "
+                          "(the stochastic generator functions are outside the deductive engine's reach: object-valued "
+                          "np.random.choice over sets/dicts, retry loops, f-string keyed dicts). Nothing is counted as proved.",
+           "checker_cmd": f"checks/check.py {prop} --tier {tier}", "trusted_base": driver.TRUSTED_BASE,
+           "obligations": 0, "discharged": 0}
+    cov.update(extra)
+    if ev is not None:
+        for k, v in cov.items():
+            if k in ("explanation",):
+                ev["coverage"][k] = ev["coverage"][k] + " " + v
+            elif k in ("obligations", "discharged", "checker_cmd", "trusted_base"):
+                continue
+            else:
+                ev["coverage"][k] = v
+        ev["wall_s"] = round(wall, 2)
+        ev["violations"] = ev.get("violations", 0) + nviol
+    else:
+        ev = {"property_id": prop, "tier": tier, "seed": int(os.environ.get("VERIF_SEED", "0") or 0), "level": "other",
+              "coverage": cov, "assumptions": driver.TRUSTED_BASE + [
+                  "A-RNG0: np.random.random_sample never returns exactly 0.0 for generated probabilities",
+                  "NumPy's seeded global stream is a function of the seed (not verified)"],
+              "wall_s": round(wall, 2), "violations": nviol}
+    driver.write_evidence(prop, ev)
+    print(f"{prop}: generator runs={len(res)} parameter-sets={ngrid} violations={nviol} wall={wall:.1f}s exit={code}")
     return code
